@@ -1529,6 +1529,14 @@ class Interp:
     def call_repo(self, f, args, kwargs, node, fr):
         key = f.target
         c = self.reg.contracts.get(key)
+        if c is None:
+            # a callee known to this caller only through a declared summary (views=)
+            f0 = fr
+            while f0 is not None and f0.contract is None:
+                f0 = f0.parent
+            views = getattr(f0.contract, 'views', None) if f0 is not None else None
+            if views and key in views:
+                c = views[key]
         mod, fnode = self.repo.function(key)
         if c is not None and not c.inline:
             return self.apply_contract(c, fnode, mod, f, args, kwargs, node, fr)
